@@ -858,6 +858,10 @@ func (c09) Exec(seed int64, i int, tier string) Record {
 	if i%10 == 7 && (tier != "thorough" || i >= c09ExCount()) {
 		return c09ReentCase(r)
 	}
+	if i%20 == 9 && (tier != "thorough" || i >= c09ExCount()) {
+		// classes overlap-probe / kth-fault-probe (b15_overlap.go): functions inside `@`- and `$`-operands first
+		return b15Case("C09", r)
+	}
 	if i%20 == 13 && (tier != "thorough" || i >= c09ExCount()) {
 		// a comparison between an aggregate-collapsed operand and a per-member operand, written either way round:
 		// one value against EVERY member (the specification is the oracle; see c01AggOperandCase)
